@@ -2,23 +2,36 @@ PROP = {
     "id": "C14",
     "coq_targets": ["Properties/C14.vo", "Extract/C14Extract.vo"],
     "properties_file": "Properties/C14.v",
-    "theorems": ["C14_process_ref", "C14_no_panic", "C14_equal_sound", "C14_equal_exact", "C14_matchers_on_bits"],
+    "theorems": ["C14_process_ref", "C14_no_panic", "C14_equal_sound", "C14_equal_exact", "C14_matchers_on_bits",
+                 "C14_net_link", "C14_process_ref_on_generated_net",
+                 "C14_config_chain_semantics", "C14_config_chain_ref"],
     "allowed_axioms": [],
+    # translator (shared with C15): regenerates coq/Gen/NetGen.v from $VERIF_REPO/net on every run (written only when
+    # changed); Proofs/PolicyNetLink.v proves the matchers of the policy model equal to the generated
+    # Prefix.Equal / Prefix.Contains, so a source change of those functions breaks a C14 obligation
+    "gen": [{"name": "gosub2coq", "cmd": ["python3", "tools/gosub2coq/run.py"], "timeout": 600}],
     "harness": "c14",
     "modelrun": {"name": "c14", "extracted": ["c14_model"], "driver": "ocaml/c14/c14_run.ml"},
-    "tiers": {"quick": {"cases": 4000}, "thorough": {"cases": 60000}},
+    "tiers": {"quick": {"cases": 3200}, "thorough": {"cases": 60000}},
     "search_cases": 12000,
     "rule": "a case = pool of 2-5 pattern pointers, a chain C (0-3 filters x 0-3 terms x 0-2 conditions with prefix lists / "
             "route filters exact|orlonger|longer|range / community / large-community / protocol parts x 0-3 actions), a chain D "
             "(identical rebuild, one-leaf mutant, or random) and 4-8 (prefix, path) inputs aimed at the chains' leaves "
             "(both families, lengths around matcher and 32/64/96-bit boundaries, flipped bits inside/just outside the pattern, "
             "cross-family twins; BGP/static/other paths, nil BGP part, nil/empty communities and AS paths, full segments); "
+            "every fourth case is a CONFIG case: 1-4 policy statements x 0-3 terms (0-3 route filters, then-block with "
+            "reject/local_pref/med/as_path_prepend/next_hop/accept), group and neighbor import/export lists (inheritance, "
+            "duplicate names, rarely undefined names / unparsable prefix, matcher, next hop), rendered as YAML, loaded with "
+            "config.GetConfig, the neighbor's import and export chains observed like C and D; "
             "a case is non-trivial when for some input a term WITH conditions applies and some input is rewritten or terminated; "
             "distinct = distinct case inputs",
     "trusted_base": [
         "extraction (ExtrOcamlBasic only) + ocaml/common/conv.ml + ocaml/c14/c14_run.ml (parser of the case encoding, rendering)",
         "Go harness harness/cmd/c14 (generator, construction through filter.New*/actions.New* and the verif hook "
         "routingtable/filter/verif_hooks_c14.go for community filters, observation, independent reference interpreter ref.go)",
+        "tools/gosub2coq (C15's translator) for Gen/NetGen.v; YAML rendering of the configuration in harness/cmd/c14/cfg.go and "
+        "gopkg.in/yaml.v3; the parse results of prefix / matcher / address strings are inputs of the config model "
+        "(crf_ok, crf_m, th_nh), net.PrefixFromString / IPFromString themselves belong to C15",
         "modelled, not verified: route.Path.Copy is deep for every part an action writes (checked on every case: input unchanged, "
         "result shares no object with the input); net.IP.Dedup is canonical (pointer equality of next hops = value equality); "
         "net.Prefix.Equal/Contains as transcribed in Model/Policy.v (tied by the correspondence run, proved equal to the bit-level "
